@@ -106,5 +106,18 @@ def fold (d : Data κ α) : Except Err (Data κ α) :=
       if size fshape ≠ d1.values.data.length then .error .value
       else ({ d1 with values := reshapeC d1.values fshape, unf := none }).reorder forder
 
+/-- util.py `concat`: stack objects of one common shape along a new last dimension;
+    labels, attributes come from the first object, the history starts empty (new object) -/
+def concat (arange : Nat → List κ) (ds : List (Data κ α)) (dim : String) (coord : Option (List κ)) :
+    Except Err (Data κ α) :=
+  match ds with
+  | [] => .error .index
+  | d0 :: _ =>
+    if ¬ ds.all (fun d => d.values.shape == d0.values.shape) then .error .index
+    else if dim ∈ d0.dims then .error .type
+    else .ok { dims := d0.dims ++ [dim], coords := d0.coords ++ [coord.getD (arange ds.length)],
+               values := stackLast d0.values.shape (ds.map (·.values)),
+               attrs := d0.attrs, dattrs := d0.dattrs, hist := [] }
+
 end Data
 end Dnp
